@@ -302,6 +302,8 @@ HOSTILE = [
     ("false", b"false"), ("empty", b""), ("space", b" "), ("text", b"hello"), ("non-utf8", b"\xff\xfe{}"), ("truncated", b'{"a":1'),
     ("trailing-garbage", b'{"a":1}x'), ("two-values", b'{"a":1}{"b":2}'), ("array-of-objects", b'[{"a":1}]'), ("nested-array", b"[[[[]]]]"),
 ("single-quotes", b"{'a':1}"), ("number-string", b'"12"'), ("neg", b"-1"), ("big", b"1e400"),
+    # NaN, Infinity and -Infinity are not JSON (RFC 8259 has no such tokens), wherever they stand
+    ("nan-object", b'{"a":NaN}'), ("infinity", b"Infinity"), ("infinity-exp", b'{"exp":Infinity}'), ("minus-infinity-nested", b'{"a":[1,{"b":-Infinity}]}'), ("nan-top", b"NaN"),
     # a JSON object with octets around it that are not JSON white space (bytes.strip() and str.strip() take more than JSON allows)
     ("vt-after", b'{"a":1}\x0b'), ("ff-after", b'{"a":1}\x0c'), ("ff-before", b'\x0c{"a":1}'), ("fs-after", b'{"a":1}\x1c'), ("us-before", b'\x1f{"a":1}'),
     ("nul-after", b'{"a":1}\x00'), ("nbsp-after", b'{"a":1}\xc2\xa0'), ("nel-after", b'{"a":1}\xc2\x85'), ("zwsp-before", b'\xe2\x80\x8b{"a":1}'),
@@ -311,7 +313,7 @@ HOSTILE = [
     ("utf16-odd-length", b"\xfe\xff\x00{\x00"), ("utf32-truncated", b"\x00\x00\xfe\xff\x00\x00\x00"), ("utf16-lone-surrogate", b"\xff\xfe\x00\xd8"),
     ("overlong-nul", b'{"a":"\xc0\x80"}'), ("latin1-text", "{\"a\":\"caf\xe9\"}".encode("latin-1")),
 ]
-OPEN_PAYLOADS = [("cesu-surrogate", b'{"a":"\xed\xa0\x80"}'), ("nan-object", b'{"a":NaN}'), ("bom-object", b'\xef\xbb\xbf{"a":1}'), ("dup-keys", b'{"a":1,"a":2}'), ("infinity", b"Infinity"),
+OPEN_PAYLOADS = [("cesu-surrogate", b'{"a":"\xed\xa0\x80"}'), ("bom-object", b'\xef\xbb\xbf{"a":1}'), ("dup-keys", b'{"a":1,"a":2}'), 
                  ("utf16-object", '{"a":1}'.encode("utf-16"))]
 OBJECT_PAYLOADS = [("object", b'{"a":1}'), ("empty-object", b"{}"), ("ws-object", b' \r\n{"a" : [1, {"b": null}]}\n'), ("unicode", '{"é":"世界"}'.encode())]
 
